@@ -788,6 +788,15 @@ func (p *Prov) sinks(fns map[*ssa.Function]bool) []*Sink {
 		if s.Raw {
 			s.Atoms = p.atomsAt(s.Instr.Block())
 			s.Just = p.justify(s)
+			if s.Just == "" {
+				// a helper that is only ever called under a table classification inherits it
+				// (one call level): e.g. a namespace-document helper called from the
+				// Namespace arms only
+				if inh := p.inheritedTblAtoms(s.Fn); len(inh) > 0 {
+					s.Atoms = append(s.Atoms, inh...)
+					s.Just = p.justify(s)
+				}
+			}
 		}
 	}
 	return out
@@ -940,4 +949,40 @@ func loopHeaders(fn *ssa.Function) map[*ssa.BasicBlock]bool {
 	}
 	loopHdrCache[fn] = m
 	return m
+}
+
+// inheritedTblAtoms: the positive table-classification atoms that hold at EVERY call
+// site of fn (one level; none when fn has no caller or is a walker called recursively).
+func (p *Prov) inheritedTblAtoms(fn *ssa.Function) []Atom {
+	sites := p.c.callersOf(fn)
+	if len(sites) == 0 {
+		return nil
+	}
+	var common map[string]Atom
+	for _, call := range sites {
+		if call.Parent() == fn {
+			return nil
+		}
+		here := map[string]Atom{}
+		for _, a := range p.atomsAt(call.Block()) {
+			if a.Kind == "tbl" && a.Pol {
+				here[a.String()] = a
+			}
+		}
+		if common == nil {
+			common = here
+			continue
+		}
+		for k := range common {
+			if _, ok := here[k]; !ok {
+				delete(common, k)
+			}
+		}
+	}
+	var out []Atom
+	for _, a := range common {
+		out = append(out, a)
+	}
+	sort.Slice(out, func(i, j int) bool { return out[i].String() < out[j].String() })
+	return out
 }
